@@ -60,7 +60,22 @@ func ruleAuthenProvenance(p *Program, r *Result) {
 		for _, c := range allCalls(fn) {
 			if call, ok := c.(*ssa.Call); ok {
 				if f := call.Common().StaticCallee(); f != nil && f.Name() == "CompareHashAndPassword" && f.Pkg != nil && strings.HasSuffix(f.Pkg.Pkg.Path(), "/bcrypt") {
-					if g, _ := guardedBySuccess(call, rs.Call, nil); g {
+					// wherever the PASS status is chosen (the reply itself, or the alternative of a merged status or
+					// verdict that can be PASS), the comparison has succeeded
+					origins := []originEdge{{blk: rs.At.Block()}}
+					if vals := rs.Options["SetAuthenReplyStatus"]; len(vals) > 0 {
+						origins = nil
+						for _, v := range vals {
+							origins = append(origins, constOrigins(p, v, map[int64]bool{pass: true}, rs.At.Block())...)
+						}
+					}
+					g := len(origins) > 0
+					for _, o := range origins {
+						if ok, _ := underSuccessOf(call, o); !ok {
+							g = false
+						}
+					}
+					if g {
 						cmp = call
 					}
 				}
@@ -183,6 +198,10 @@ func passwordOfThisRequest(fn *ssa.Function, v ssa.Value) (bool, string) {
 			}
 			// base: result of a helper that decodes f's request parameter's Body
 			dc, ok := stripAllConv(base).(*ssa.Call)
+			if !ok {
+				// one of several results of the decoding helper
+				dc, _, ok = extractOf(stripAllConv(base))
+			}
 			if !ok || dc.Common().StaticCallee() == nil {
 				return false, "the body is not decoded from the request"
 			}
@@ -781,9 +800,32 @@ func ruleDefaultAAA(p *Program, r *Result) {
 		return
 	}
 	set := map[string]string{}
-	fnPos := fn.Pos()
+	handler := map[string]*ssa.Function{}
 	fn = p.localInlined(fn) // the defaults may come from a small constructor of the zero-trust value
-	_ = fnPos
+	// handlerOf: the function that runs when the boxed value's Handle is invoked: the Handle method of its type, or
+	// the function itself for a tacquito.HandlerFunc conversion
+	handlerOf := func(mi *ssa.MakeInterface) *ssa.Function {
+		x := mi.X
+		for {
+			if ct, ok := x.(*ssa.ChangeType); ok {
+				x = ct.X
+				continue
+			}
+			break
+		}
+		if f, ok := x.(*ssa.Function); ok {
+			return f
+		}
+		ms := p.SSA.MethodSets.MethodSet(mi.X.Type())
+		for i := 0; i < ms.Len(); i++ {
+			if ms.At(i).Obj().Name() == "Handle" {
+				if obj, ok := ms.At(i).Obj().(*types.Func); ok {
+					return p.SSA.FuncValue(obj)
+				}
+			}
+		}
+		return nil
+	}
 	for _, b := range fn.Blocks {
 		for _, in := range b.Instrs {
 			st, ok := in.(*ssa.Store)
@@ -798,14 +840,55 @@ func ruleDefaultAAA(p *Program, r *Result) {
 				continue
 			}
 			if mi, ok := st.Val.(*ssa.MakeInterface); ok {
+				if _, dup := set[f.Name()]; dup {
+					set[f.Name()] = "set more than once"
+					handler[f.Name()] = nil
+					continue
+				}
 				set[f.Name()] = typeName(mi.X.Type())
+				handler[f.Name()] = handlerOf(mi)
 			}
 		}
 	}
-	good := strings.Contains(set["Authenticate"], "defaultAuthenticator") && strings.Contains(set["Authorizer"], "defaultAuthorizer") && strings.Contains(set["Accounting"], "defaultAccounter")
+	// each initial handler is a handler of this module that answers, and answers only with refusals of its own kind
+	grant := map[string][]string{"Authen": {"AuthenStatusPass"}, "Author": {"AuthorStatusPassAdd", "AuthorStatusPassRepl"}, "Acct": {"AcctReplyStatusSuccess"}}
+	kindOf := map[string]string{"Authenticate": "Authen", "Authorizer": "Author", "Accounting": "Acct"}
+	sites := allReplySites(p)
+	good := true
+	var whyNot []string
+	for _, field := range []string{"Authenticate", "Authorizer", "Accounting"} {
+		h := handler[field]
+		if h == nil || h.Blocks == nil {
+			good = false
+			whyNot = append(whyNot, field+": no initial handler with a body in this module ("+set[field]+")")
+			continue
+		}
+		n := 0
+		for _, rs := range sites {
+			if p.orig(rs.Fn) != p.orig(h) {
+				continue
+			}
+			n++
+			if !rs.Resolved || rs.Kind != kindOf[field] {
+				good = false
+				whyNot = append(whyNot, fmt.Sprintf("%s: %s has a reply that is not a resolved %s reply", field, fnKey(h), kindOf[field]))
+				continue
+			}
+			for _, gname := range grant[rs.Kind] {
+				if gv, ok := p.rootConst(gname); !ok || hasStatus(rs, gv) {
+					good = false
+					whyNot = append(whyNot, fmt.Sprintf("%s: %s can reply %s", field, fnKey(h), gname))
+				}
+			}
+		}
+		if n == 0 {
+			good = false
+			whyNot = append(whyNot, fmt.Sprintf("%s: %s replies nothing itself", field, fnKey(h)))
+		}
+	}
 	r.cond(good, "R-PROVENANCE", "NewAAA:defaults", p.Pos(fn.Pos()),
-		"NewAAA starts from the default-deny authenticator, authorizer and accounter; options only replace them",
-		fmt.Sprintf("NewAAA does not start from the default-deny handlers (found %v)", set))
+		fmt.Sprintf("NewAAA starts from handlers that only refuse (authenticator %s, authorizer %s, accounter %s: every reply of theirs is a FAIL/ERROR of the right kind); options only replace them", set["Authenticate"], set["Authorizer"], set["Accounting"]),
+		fmt.Sprintf("NewAAA does not start from default-deny handlers: %s", strings.Join(whyNot, "; ")))
 }
 
 // sameCellValue: a and b denote the same object: identical values, or two loads of the same local cell that
